@@ -3065,7 +3065,9 @@ def grey_reconstruction(image, mask, footprint=None, offset=None):
     if footprint is None:
         footprint = np.ones([3] * image.ndim, bool)
     else:
-        footprint = footprint.copy()
+        # a copy (the centre is crossed out below) of boolean type: an integer
+        # 0/1 footprint would be used as a fancy index further down
+        footprint = np.array(footprint, dtype=bool)
 
     if offset is None:
         assert all(
